@@ -388,6 +388,19 @@ def r02_4_recursion_guards(ctx):
             st += list(g[x])
         return False
 
+    # every call graph on three routines, and seeded samples of graphs on four and five
+    import random
+
+    rnd = random.Random(20240922)
+    tri = nodes[:3]
+    for bits in range(1 << 9):
+        graphs[f"3-node #{bits}"] = {a: {b for j, b in enumerate(tri) if bits >> (3 * i + j) & 1} for i, a in enumerate(tri)}
+    E = Sym("E")
+    for n, count in ((4, 150 if ctx.tier == "quick" else 3000), (5, 80 if ctx.tier == "quick" else 1500)):
+        ns = (nodes + [E])[:n]
+        for t in range(count):
+            dens = rnd.choice((0.2, 0.35, 0.5))
+            graphs[f"{n}-node sample {t}"] = {a: {b for b in ns if rnd.random() < dens} for a in ns}
     for name, g in graphs.items():
         def resolver(nm, gs=gs):
             return gs.node if nm == "graph_search" else None
@@ -407,7 +420,7 @@ def r02_4_recursion_guards(ctx):
     loopt = [a.target for a in q.ancestors(conds[0]) if isinstance(a, ast.For)] if conds else []
     kv = [u(e) for e in loopt[0].elts] if loopt and isinstance(loopt[0], ast.Tuple) and len(loopt[0].elts) == 2 else ["k", "v"]
     ctx.check(len(conds) == 1 and isinstance(conds[0].test, ast.BoolOp) and isinstance(conds[0].test.op, ast.And) and sorted(u(v) for v in conds[0].test.values) == sorted([f"{kv[0]}.by_ref_args", kv[1]]), "R02.4", "spill:byref-condition", f"a routine is rejected iff it has re-entry points and by-reference parameters; found `{u(conds[0].test) if conds else None}`", f.where, fact={})
-    ctx.require_min("R02.4", 7)
+    ctx.require_min("R02.4", 700)
 
 
 def _tealtype_sym():
@@ -482,6 +495,9 @@ def run(ctx):  # noqa: F811
     r02_2_convention(ctx)
     r02_1_call_site(ctx)
     r02_4_recursion_guards(ctx)
+    from rules import c03 as _c03b
+
+    _c03b.r03_1b_slot_classes(ctx)  # which slots are a routine's own (spilled around re-entrant calls) and which are shared (never spilled)
     r02_5_return(ctx)
     return (
         "Bounded partial evaluation of the spill/restore builder pushed through an abstract stack machine (all strategies x arities x caller/callee kinds); "
